@@ -57,7 +57,7 @@ class Profile:
         self.nK = 3
         self.nF = 8            # functor ids
         self.flavours = ["V", "I", "A", "TV", "TI", "TA"]
-        self.specs = {"fn": 6, "mem": 2, "trk": 2, "trk2": 1, "bref": 1, "nest": 1, "fwd": 1}
+        self.specs = {"fn": 6, "mem": 2, "trk": 2, "trk2": 1, "bref": 1, "nest": 1, "fwd": 1, "ownT": 1, "ownK": 1}
         self.body_prob = 0.3   # probability that a functor id has a body
         self.body_len = (1, 4)
         self.len = (10, 60)
@@ -118,6 +118,10 @@ class Gen:
             return "%s:%d:T%d" % (k, fid, self.pick(self.T, self.p.nT, True))
         if k == "trk2":
             return "trk:%d:T%d:T%d" % (fid, self.pick(self.T, self.p.nT, True), self.pick(self.T, self.p.nT, True))
+        if k == "ownT":
+            return "ownT:%d:T%d" % (fid, self.pick(self.T, self.p.nT, True))
+        if k == "ownK":
+            return "ownK:%d:K%d" % (fid, self.pick(self.K, self.p.nK, True))
         if k == "nest":
             cands = [s for s, t in self.S.items() if want_void is None or t == ("V" if want_void else "I")
                      or (want_void and t == "I")]
